@@ -696,6 +696,16 @@ def _decide(cx, chk, rt, S, sm, notes, undecided):
             if all(x == lplus(want, 1) for x in lv):
                 i["Clin"] = want
                 col_state["ok"] += 1
+            elif all(len([k_ for k_ in x if k_ != 1]) == 1 and isinstance([k_ for k_ in x if k_ != 1][0], tuple) and [k_ for k_ in x if k_ != 1][0][0] == "NCHARS"
+                     and [k_ for k_ in x if k_ != 1][0][1] != cn(i["TXT"])
+                     and through([k_ for k_ in x if k_ != 1][0][1], ("trim_end", "trim", "trim_start", "trim_end_matches", "trim_matches", "trim_start_matches")) == strip(i["TXT"])
+                     for x in lv):
+                col_state["wrong"] += 1
+                viol(R + ".col", "end-of-line-trimmed",
+                     "when the position is at the end of its line the column shown is the character count of the *trimmed* line: for a line that ends in "
+                     "whitespace (blanks, tabs, the \\r of a CRLF line) the end-of-line position is reported too far left (text \"a  \", position 3 is "
+                     "column 4, not 2)")
+                continue
             elif all(set(x) <= {1} for x in lv):
                 col_state["wrong"] += 1
                 viol(R + ".col", "end-of-line-constant",
